@@ -41,6 +41,12 @@ EXTRA_SNIPPETS = [
     ("tuple_to_one", "    assert (1,) == snapshot((5, 6, 7))"),
     ("never_compared", "    s = snapshot([0+1, 1+1, {'k': 2+1}])"),
     ("loop_two_ops", "    s = snapshot(3)\n    for x in (1, 2):\n        assert x <= s"),
+    # the previous content of an `in` snapshot is no list display (tuple, dict, string, set): C02 "whatever the previous content was"
+    ("in_tuple_hit", "    assert 1 in snapshot((1, 2))"),
+    ("in_tuple_miss", "    try:\n        assert 4 in snapshot((1, 2))\n    except AssertionError:\n        pass"),
+    ("in_dict", "    assert 'a' in snapshot({'a': 1})"),
+    ("in_str", "    assert 'a' in snapshot('abc')"),
+    ("in_set_miss", "    try:\n        assert 4 in snapshot({1, 2})\n    except AssertionError:\n        pass"),
 ]
 
 
